@@ -11,6 +11,10 @@ import (
 	"flag"
 	"fmt"
 	"os"
+	"os/exec"
+	"path/filepath"
+	"sort"
+	"strings"
 	"sync/atomic"
 	"time"
 
@@ -27,7 +31,37 @@ import (
 var (
 	curCase atomic.Value // string: the case being run (for the watchdog)
 	beat    atomic.Int64
+	curFile *os.File // the case being run, for the supervising parent (a Go stack overflow cannot be recovered)
+	rawMode bool     // stage "raw": sqlx.SortChanges alone, on the unsorted change list
 )
+
+// supervise runs the generator in a child process. Unbounded recursion in the planner
+// (= the loop the property excludes) kills a Go process with a fatal error that no
+// recover() sees; the parent then reports the case the child was running as the failing input.
+func supervise(outDir string) {
+	cur := filepath.Join(outDir, "current.txt")
+	os.MkdirAll(outDir, 0o755)
+	os.Remove(cur)
+	cmd := exec.Command(os.Args[0], os.Args[1:]...)
+	cmd.Env = append(os.Environ(), "VERIF_SORT_CHILD=1")
+	cmd.Stdout = os.Stdout
+	err := cmd.Run() // stderr (a stack dump of ~1e5 frames) is dropped
+	if err == nil {
+		os.Remove(cur)
+		return
+	}
+	b, _ := os.ReadFile(cur)
+	id, line, _ := strings.Cut(strings.TrimSpace(string(b)), " ")
+	if id == "" {
+		fmt.Fprintln(os.Stderr, "sort harness: child failed before the first case:", err)
+		os.Exit(2)
+	}
+	w := out.New(outDir)
+	w.Rule = "the planner process died (fatal error: unbounded recursion) on the recorded case; the other cases of this stage were discarded"
+	w.Case(id, line, []string{"sort out=crash", "mysql out=crash", "pg out=crash"})
+	w.Violation(id, "planner-crash", "fatal error in the planner (stack overflow = it loops) ("+err.Error()+"); case: "+line)
+	w.Close()
+}
 
 func main() {
 	mode := flag.String("mode", "exh", "exh|rnd")
@@ -38,7 +72,14 @@ func main() {
 		fmt.Fprintln(os.Stderr, "missing -out")
 		os.Exit(2)
 	}
+	if os.Getenv("VERIF_SORT_CHILD") == "" {
+		supervise(*outDir)
+		return
+	}
 	w := out.New(*outDir)
+	if f, err := os.Create(filepath.Join(*outDir, "current.txt")); err == nil {
+		curFile = f
+	}
 	curCase.Store("")
 	// Watchdog: a single planner call that does not return within 20 s is a loop.
 	go func() {
@@ -59,6 +100,9 @@ func main() {
 		genExhaustive(w, *tier)
 	case "rnd":
 		genRandom(w, *tier)
+	case "raw":
+		rawMode = true
+		genRaw(w, *tier)
 	default:
 		fmt.Fprintln(os.Stderr, "unknown mode")
 		os.Exit(2)
@@ -111,6 +155,63 @@ func runSort(sc *scenario) runRes {
 		}
 		return verifx.SortChanges(d, nil), nil
 	})
+}
+
+// runRaw: SortChanges alone on the change list as given (no DetachCycles first), so that its
+// depth-first search has real work to do: forward edges, 2-cycles of dependsOn, chains.
+func runRaw(sc *scenario) runRes {
+	return guard(func() ([]schema.Change, error) {
+		return verifx.SortChanges(sc.build("int"), nil), nil
+	})
+}
+
+func multiset(os []ochg) string {
+	ss := make([]string, len(os))
+	for i, o := range os {
+		ss[i] = o.String()
+	}
+	sort.Strings(ss)
+	return strings.Join(ss, " ")
+}
+
+// runRawCase: tie on the exact order; oracle = the parts of C04 that hold for every input
+// (terminates without panic, output is a permutation of the input).
+func runRawCase(w *out.W, id string, sc *scenario, tags ...string) {
+	line := sc.caseLine()
+	if seen[line] {
+		w.Count("duplicate-skipped")
+		return
+	}
+	seen[line] = true
+	curCase.Store(id)
+	beat.Add(1)
+	if curFile != nil {
+		curFile.Truncate(0)
+		curFile.WriteAt([]byte(id+" "+line+"\n"), 0)
+	}
+	in, _ := decode(sc.build("int"))
+	r := runRaw(sc)
+	beat.Add(1)
+	curCase.Store("")
+	if r.err != "" {
+		w.Violation(id, "planner-"+r.err, fmt.Sprintf("raw: %s; case: %s", r.msg, line))
+		w.Case(id, line, []string{"raw out=" + r.err})
+		return
+	}
+	if multiset(in) != multiset(r.outp) {
+		w.Violation(id, "not-once", fmt.Sprintf("raw: SortChanges output %s is not a permutation of its input %s", showOut(r.outp), showOut(in)))
+	}
+	w.Case(id, line, []string{"raw out=" + showOut(r.outp)})
+	for _, t := range tags {
+		w.Count(t)
+	}
+	w.Count(fmt.Sprintf("changes:%d", len(sc.cs)))
+	if showOut(r.outp) != showOut(in) {
+		w.Count("raw:reordered")
+		w.NonTrivial(line)
+	} else {
+		w.Count("raw:unchanged")
+	}
 }
 
 func runPlanner(sc *scenario, p migrate.PlanApplier, intT string) runRes {
@@ -214,6 +315,10 @@ func runCase(w *out.W, id string, sc *scenario, tags ...string) {
 	seen[line] = true
 	curCase.Store(id)
 	beat.Add(1)
+	if curFile != nil {
+		curFile.Truncate(0)
+		curFile.WriteAt([]byte(id+" "+line+"\n"), 0)
+	}
 	in, _ := decode(sc.build("int"))
 	cyc := scenarioCyclic(sc)
 	var obs []string
@@ -455,6 +560,49 @@ func genExhaustive(w *out.W, tier string) {
 				runCase(w, fmt.Sprintf("e%d-%d", n, id), mkScenario(n, rolesOf(n, r.Intn(81)), adj, r.Intn(4), ps[r.Intn(len(ps))]), "n:4")
 			}
 		}
+	}
+}
+
+// genRaw: the same enumeration as the exhaustive stage (n <= 3) and a seeded random part, but the
+// change list goes to sqlx.SortChanges directly.
+func genRaw(w *out.W, tier string) {
+	w.Exhaust = true
+	w.Rule = "raw SortChanges (no DetachCycles before it): every FK graph with self loops over n<=3 tables x every split created/dropped/modified x 4 readings x every input order, then seeded random change sets of 2..8 tables (quick 4000, thorough 60000). Compared: exact output order. Oracle: no panic/loop, output is a permutation of the input. Non-trivial = SortChanges moved something"
+	id := 0
+	for n := 1; n <= 3; n++ {
+		ps := perms(n)
+		for bits := uint64(0); bits < 1<<uint(n*n); bits++ {
+			adj := adjOf(n, bits)
+			for split := 0; split < pow(3, n); split++ {
+				roles := rolesOf(n, split)
+				for variant := 0; variant < 4; variant++ {
+					for _, p := range ps {
+						id++
+						runRawCase(w, fmt.Sprintf("w%d-%d", n, id), mkScenario(n, roles, adj, variant, p), fmt.Sprintf("n:%d", n))
+					}
+				}
+			}
+		}
+	}
+	r := rng.FromEnv(0xC04A)
+	count := 4000
+	if tier == "thorough" {
+		count = 60000
+	}
+	for k := 0; k < count; k++ {
+		n := 2 + r.Intn(7)
+		roles := make([]int, n)
+		for i := range roles {
+			roles[i] = r.Intn(3)
+		}
+		adj := make([][]bool, n)
+		for i := range adj {
+			adj[i] = make([]bool, n)
+			for j := range adj[i] {
+				adj[i][j] = r.Chance(10+r.Intn(40), 100)
+			}
+		}
+		runRawCase(w, fmt.Sprintf("wr%d", k), mkScenario(n, roles, adj, r.Intn(4), randPerm(r, n)), fmt.Sprintf("n:%d", n))
 	}
 }
 
